@@ -79,13 +79,18 @@ def fork_run(fn, *args, timeout=None, **kwargs):
     return res["value"]
 
 
-def worker_dirs(tag=None):
-    """Private scratch for this worker process: (root, scratch). Fixed-width names so
-    that path lengths (and therefore column numbers in messages) never vary."""
+def scratch_top():
     base = "/dev/shm" if os.path.isdir("/dev/shm") and os.access("/dev/shm", os.W_OK) else \
         os.environ.get("TMPDIR", "/var/tmp")
     top = os.path.join(base, "bbsim")
     os.makedirs(top, exist_ok=True)
+    return top
+
+
+def worker_dirs(tag=None):
+    """Private scratch for this worker process: (root, scratch). Fixed-width names so
+    that path lengths (and therefore column numbers in messages) never vary."""
+    top = scratch_top()
     d = os.path.join(top, "w%07d" % os.getpid())
     os.makedirs(os.path.join(d, "root"), exist_ok=True)
     os.makedirs(os.path.join(d, "scratch"), exist_ok=True)
@@ -93,9 +98,7 @@ def worker_dirs(tag=None):
 
 
 def cleanup_stale():
-    base = "/dev/shm/bbsim"
-    if not os.path.isdir(base):
-        return
+    base = scratch_top()
     import shutil
     for n in os.listdir(base):
         if n.startswith("w") and n[1:].isdigit():
